@@ -37,6 +37,7 @@ OBLIGATIONS = {
     "no_restart_between_batches": "a history ran two batches in the same process image",
     "odd_directory_name": "a data directory whose name contains glob metacharacters / spaces / non-ASCII / a .dat suffix",
     "crash_torn_record": "a crash left a torn (partial) record",
+    "io_error_points": "executions in which one open()/write() failed with ENOSPC and the process carried on",
     "crash_points": "crash points were met (open/write/flush/close intercepted)",
     "crash_during_rollover": "a crash happened between closing a full file and finishing the first record of the next",
 }
@@ -280,10 +281,18 @@ class CrashEnv:
         self.real_open = builtins.open
         self.real_makedirs = os.makedirs
         self.short_writes = 0
+        self.errored = None
 
     def point(self, label):
         self.points += 1
-        if self.ctx.choose(2, costs=[0, 1], label=label):
+        # answers of the environment at a file operation: carry on / the process dies here / (open and write only) the call
+        # fails with ENOSPC and the process CARRIES ON - the library sees an OSError, nothing of this write reaches the file
+        kinds = 3 if label[0] in ("write", "open") and self.errored is None else 2
+        c = self.ctx.choose(kinds, costs=[0, 1, 1][:kinds], label=label)
+        if c == 2:
+            self.errored = label
+            raise OSError(28, "No space left on device (injected)")
+        if c:
             self.crashed = label
             for f in list(self.open_files):
                 if f.pending:
@@ -382,6 +391,17 @@ class CrashFile:
     def fileno(self):
         return self.real.fileno()
 
+    def truncate(self, size=None):
+        # io.BufferedWriter.truncate: flush, then cut (or extend with zero bytes) at size / the current position
+        self.env.point(("truncate", size))
+        self._flush()
+        return self.real.truncate(self.real.tell() if size is None else size)
+
+    def __getattr__(self, name):
+        if name in ("real", "env"):
+            raise AttributeError(name)
+        return getattr(self.real, name)      # mode, readable(), writable(), seekable(), ... answered by the real file
+
     def __enter__(self):
         return self
 
@@ -419,7 +439,7 @@ def crash_run(ctx, case, info=None):
         err = f"{type(e).__name__}: {e}"
     finally:
         env.uninstall()
-    obs = {"crashed": env.crashed, "points": env.points, "torn": env.torn, "err": err, "short_writes": env.short_writes}
+    obs = {"crashed": env.crashed, "points": env.points, "torn": env.torn, "err": err, "short_writes": env.short_writes, "errored": env.errored}
     if os.path.isdir(path):
         files, _ = R.read_dir(path)
         got = {no: data for no, (name, data) in files.items()}
@@ -447,6 +467,20 @@ def judge_crash(case, obs):
             return [("C19/short-write/torn-record", f"a short write(2) count was ignored: the call returned normally but the files hold "
                      f"{len(s)}B that are not the expected {len(f)}B record stream (last batch of {case['batches']} on layout {case['layout']})")]
         return []
+    if obs["crashed"] is None and obs.get("errored"):
+        # one file operation failed with ENOSPC and the process carried on: whatever the call did about it (propagate, clean
+        # up), the files must still be a prefix of the record stream that keeps everything written by earlier calls; a call
+        # that returns normally must have written everything
+        tag = f"[{obs['errored']} failed with ENOSPC in last batch of {case['batches']} on layout {case['layout']}, files {obs['sizes']}, call -> {obs['err'] or 'returned normally'}]"
+        if not f.startswith(s):
+            out.append(("C19/io-error/not-a-prefix", f"after a failed file operation the files, read in numeric order, are not a prefix of the record stream ({len(s)}B vs {len(f)}B) {tag}"))
+        elif not s.startswith(b):
+            out.append(("C19/io-error/earlier-blocks-lost", f"after a failed file operation only {len(s)}B remain, earlier batches wrote {len(b)}B {tag}"))
+        elif obs["err"] is None and s != f:
+            out.append(("C19/io-error/swallowed", f"the call returned normally although a write failed and the files hold {len(s)}B of {len(f)}B {tag}"))
+        if any(v > case["L"] for v in obs["sizes"].values()):
+            out.append(("C19/io-error/oversize", f"a file exceeds the limit {tag}"))
+        return out
     if obs["crashed"] is None:
         return []   # no crash in this execution: the history part judges complete calls
     if not f.startswith(s):
@@ -628,7 +662,9 @@ def run_job(job):
                 ex = Explorer(lambda ctx: crash_run(ctx, case0), bound=1, cache=False)
 
                 def check(ctx, obs):
-                    if obs.get("crashed") is None and obs.get("short_writes"):
+                    if obs.get("crashed") is None and obs.get("errored"):
+                        acc.ob("io_error_points")
+                    if obs.get("crashed") is None and (obs.get("short_writes") or obs.get("errored")):
                         for key, desc in judge_crash(case0, obs):
                             case = dict(case0)
                             case["choices"] = ctx.choices
